@@ -46,6 +46,12 @@ def det_scenarios(ctx, quick):
             decls.append({"k": "end"})
             decls.append({"k": "end"})
         scn.append({"id": len(scn) + 1, "decls": decls, "seed": ctx.seed, "mixins": True, "reps": 12})
+    # relational models (spec/DbGen.tla): chains of foreign keys to foreign keys decide the order in which the database
+    # script generators place the tables; the delta script between the last two versions is a generator too
+    hist = core.generate(ctx, "DbGen", "GenDb3.cfg", num=20 if quick else 300, depth=14, seed=ctx.seed * 100 + 22, timeout=2400)
+    deep = core.generate(ctx, "DbGen", "GenDbDeep.cfg", num=20 if quick else 200, depth=12, seed=ctx.seed * 100 + 23, timeout=2400)
+    for h in hist + deep:
+        scn.append({"id": len(scn) + 1, "decls": [], "versions": h["versions"], "seed": ctx.seed, "reps": 12})
     return scn
 
 
